@@ -125,7 +125,19 @@ ADDED.update({
     "w9_C19": "serials that are all zero / zero-based per model",
     "w9_C20": "axes a rounding error away from a coordinate axis or plane (component 1e-9 ... 1e-100)",
 })
-ROUND = {"C": 1, "w2": 2, "w3": 3, "w4": 4, "w5": 5, "w6": 6, "w7": 7, "w8": 8, "w9": 9}
+ADDED.update({
+    "w10_C01": "C01_Identity (a reported group carries chain, number, code of the residue it was read from); numbers >= 1000 / <= -100",
+    "w10_C02": "same-type insertion-code twins (equal labels) in the rendering runs",
+    "w10_C03": "a covalently coupled system of three groups two of which almost tie (methyl phosphate), under permuted set orders",
+    "w10_C04": "a supplied proton within the X-H criterion of two heavy atoms, moved in quarter-cell steps (found F13 on the way)",
+    "w10_C05": "PartOfMulti: the far part has alternate locations (two conformations in the union, one in the part alone)",
+    "w10_C06": "four-column residue numbers on the whole 1HPX dimer (coupled pair only just)",
+    "w10_C07": "record types ENDMDL / END / LINK / SSBOND ... among the 'other' records (reader replay and edits)",
+    "w10_C08": "kept supplied hydrogens (-k) in multi-conformation inputs: atoms of the file like any others in CompletedOK",
+    "w10_C09": "ChargeGrid reported by C09 too; grids whose accumulated sum drifts upward (3-9/0.15, 0-14/0.4)",
+    "w10_C10": "groups with a customised model pKa (custom_model_pkas by parameter file, nucleotide under the shipped file)",
+})
+ROUND = {"C": 1, "w2": 2, "w3": 3, "w4": 4, "w5": 5, "w6": 6, "w7": 7, "w8": 8, "w9": 9, "w10": 10}
 
 
 def main():
